@@ -513,6 +513,34 @@ pub fn drive_cmp(a: &Args, n_pairs: usize) {
             nontrivial += 1;
         }
     }
+    // the capping region, systematically: block size indices 0..5 (cap applies below 4; block hash 2
+    // has the effective index k + 1), every near relation, block hashes of 7..13 symbols (cap < 100)
+    // that are nearly identical (raw score far above the cap), in block hash 1 / 2 / both / crossing
+    let full: Vec<u8> = (0..64).collect();
+    for k in 0..=5u8 {
+        for dk in [0i32, 1, -1] {
+            let k2 = k as i32 + dk;
+            if k2 < 0 {
+                continue;
+            }
+            for len in 7..=13usize {
+                for which in 0..4 {
+                    sh.next_unit();
+                    let s = rand_bh(&mut rng, len, &full, 3);
+                    let mut t = s.clone();
+                    t.push((s[0] + 1) % 64);          // one symbol appended: edit distance 1
+                    let other = rand_bh(&mut rng, 9, &full, 3);
+                    let (x, y) = match which {
+                        0 => (H { k, a: s.clone(), b: other.clone() }, H { k: k2 as u8, a: t.clone(), b: vec![] }),
+                        1 => (H { k, a: other.clone(), b: s.clone() }, H { k: k2 as u8, a: vec![], b: t.clone() }),
+                        2 => (H { k, a: s.clone(), b: s.clone() }, H { k: k2 as u8, a: t.clone(), b: t.clone() }),
+                        _ => (H { k, a: s.clone(), b: t.clone() }, H { k: k2 as u8, a: t.clone(), b: s.clone() }),
+                    };
+                    ev_cmp(&mut sh, &mut reuse, &x, &y);
+                }
+            }
+        }
+    }
     // all 31 x 31 block size combinations on one related content pair each (dispatch)
     for k1 in 0..31u8 {
         for k2 in 0..31u8 {
